@@ -12,6 +12,8 @@
 (***************************************************************************)
 EXTENDS GrammarLaw, RefRender
 
+\* SEARCH / CYCLE options of a recursive WITH are PostgreSQL's
+NoRecOpts(w) == IsNone(w) \/ (IsNone(w.search) /\ IsNone(w.cycle))
 RECURSIVE Portable(_)
 PortableTable(t) == t.k \in {"table", "alias"} \/ (t.k = "subq" /\ Portable(t.q)) \/ t.k = "values"
 Portable(s) ==
@@ -22,15 +24,16 @@ Portable(s) ==
             /\ \A i \in DOMAIN s.from : PortableTable(s.from[i])
             /\ \A i \in DOMAIN s.joins : PortableTable(s.joins[i].t) /\ ~s.joins[i].lateral
             /\ \A i \in DOMAIN s.unions : Portable(s.unions[i].q)
+            /\ NoRecOpts(s.with)
             /\ (IsNone(s.with) \/ \A i \in DOMAIN s.with.ctes : s.with.ctes[i].mat = "none" /\ Portable(s.with.ctes[i].q))
             /\ \A i \in DOMAIN s.selects : IsNone(s.selects[i].w) \/ s.selects[i].w.k = "def"
        [] s.kind = "insert" ->
             /\ IsNone(s.on_conflict) /\ IsNone(s.returning) /\ IsNone(s.with) /\ ~s.replace
             /\ ~(s.ins.dv > 0 /\ Len(s.ins.cols) = 0 /\ s.ins.source.k = "none")
             /\ (s.ins.source.k = "select" => Portable(s.ins.source.q))
-       [] s.kind = "update" -> IsNone(s.returning) /\ Len(s.from) = 0 /\ Len(s.orders) = 0 /\ IsNone(s.limit) /\ (IsNone(s.with) \/ \A i \in DOMAIN s.with.ctes : Portable(s.with.ctes[i].q))
-       [] s.kind = "delete" -> IsNone(s.returning) /\ Len(s.orders) = 0 /\ IsNone(s.limit) /\ (IsNone(s.with) \/ \A i \in DOMAIN s.with.ctes : Portable(s.with.ctes[i].q))
-       [] s.kind = "withq" -> Portable(s.q) /\ \A i \in DOMAIN s.w.ctes : Portable(s.w.ctes[i].q)
+       [] s.kind = "update" -> NoRecOpts(s.with) /\ IsNone(s.returning) /\ Len(s.from) = 0 /\ Len(s.orders) = 0 /\ IsNone(s.limit) /\ (IsNone(s.with) \/ \A i \in DOMAIN s.with.ctes : Portable(s.with.ctes[i].q))
+       [] s.kind = "delete" -> NoRecOpts(s.with) /\ IsNone(s.returning) /\ Len(s.orders) = 0 /\ IsNone(s.limit) /\ (IsNone(s.with) \/ \A i \in DOMAIN s.with.ctes : Portable(s.with.ctes[i].q))
+       [] s.kind = "withq" -> NoRecOpts(s.w) /\ Portable(s.q) /\ \A i \in DOMAIN s.w.ctes : Portable(s.w.ctes[i].q)
 RECURSIVE HasNullsOrder(_)
 HasNullsOrder(s) ==
   CASE s.kind = "select" -> (\E i \in DOMAIN s.orders : s.orders[i].nulls # "none")
